@@ -1,4 +1,5 @@
 //! pv — common machinery for the bounded exhaustive checks of /verif (see DESIGN.md §3).
+pub mod colorkind;
 pub mod fl;
 pub mod lattice;
 pub mod par;
